@@ -20,6 +20,10 @@ F(m, e) == [t |-> "flt", m |-> m, e |-> e]      \* m * 2^-e, normalised: m odd o
 S(s) == [t |-> "str", s |-> s]
 B(b) == [t |-> "bool", b |-> b]
 NullV == [t |-> "null"]
+\* symbolic 64-bit boundary integers (TLC's integers are 32 bit): only their order and identity are used
+Big(s) == [t |-> "big", s |-> s]
+BigRank(s) == CASE s = "min" -> -3 [] s = "min+1" -> -2 [] s = "max-1" -> 2 [] s = "max" -> 3
+Bigs == {Big("min"), Big("min+1"), Big("max-1"), Big("max")}
 
 Ints == {I(0), I(1), I(-1), I(2), I(-2), I(7)} \cup (IF BigPool THEN {I(3), I(-7), I(8), I(16)} ELSE {})
 Flts == {F(0, 0), F(1, 1), F(-3, 1), F(2, 0), F(5, 2)}          \* 0.0, 0.5, -1.5, 2.0, 1.25
@@ -28,7 +32,7 @@ Strs == {S(""), S("0"), S("a"), S("ab"), S("b"), S("10")} \cup (IF BigPool THEN 
 Others == {B(TRUE), B(FALSE), NullV}
 \* non-scalars: nothing is prescribed for them, but no operator may crash and the laws still apply
 NonScalars == {[t |-> "arr"], [t |-> "obj"]}
-Pool == Ints \cup Flts \cup Strs \cup Others \cup NonScalars
+Pool == Ints \cup Flts \cup Strs \cup Others \cup NonScalars \cup Bigs
 Scalar(x) == x.t \notin {"arr", "obj"}
 
 BinOps == {"+", "-", "*", "/", "%", "**", "&", "|", "^", "<<", ">>", "==", "!=", "===", "!==", "<", "<=", ">", ">=", "<=>", "&&", "||", "."}
@@ -75,7 +79,7 @@ NumericStr(s) == s \in {"0", "10", "1.5"}
 \* ---------------------------------------------------------------- truthiness (one operator)
 \* anchored: 0, 0.0, false, null, "" falsy; non-zero numbers, true, other non-empty strings truthy
 Anchored(x) == ~(x.t = "str" /\ x.s = "0") /\ x.t \notin {"arr", "obj"}
-Truthy(x) == CASE x.t = "int" -> x.v # 0 [] x.t = "flt" -> x.m # 0 [] x.t = "bool" -> x.b
+Truthy(x) == CASE x.t = "int" -> x.v # 0 [] x.t = "flt" -> x.m # 0 [] x.t = "bool" -> x.b [] x.t = "big" -> TRUE
                [] x.t = "null" -> FALSE [] x.t = "str" -> x.s # "" [] OTHER -> TRUE
 
 \* ---------------------------------------------------------------- the operators
@@ -91,8 +95,22 @@ BitOp(op, p, q) == IF p = 0 /\ q = 0 THEN 0
                                      [] op = "^" -> IF bp # bq THEN 1 ELSE 0
                         IN bit + 2 * BitOp(op, p \div 2, q \div 2)
 
+\* operators with a boundary integer: order, equality, identity and truthiness are exact (every other pool number
+\* lies strictly between min+1 and max-1); arithmetic at the boundary is not prescribed here (no crash only)
+NumLike(x) == x.t \in {"int", "flt", "big"}
+RankOf(x) == IF x.t = "big" THEN BigRank(x.s) ELSE 0
+BigApply(op, a, b) ==
+  CASE op \in {"<", "<=", ">", ">=", "<=>"} ->
+         IF NumLike(a) /\ NumLike(b) THEN Cmp(op, IF RankOf(a) < RankOf(b) THEN -1 ELSE IF RankOf(a) = RankOf(b) THEN 0 ELSE 1) ELSE Unspec
+    [] op \in {"==", "!="} -> IF NumLike(a) /\ NumLike(b) THEN Val(B((a = b) = (op = "=="))) ELSE Unspec
+    [] op \in {"===", "!=="} -> Val(B((a = b) = (op = "===")))
+    [] op = "&&" -> IF Anchored(a) /\ Anchored(b) THEN Val(B(Truthy(a) /\ Truthy(b))) ELSE Unspec
+    [] op = "||" -> IF Anchored(a) /\ Anchored(b) THEN Val(B(Truthy(a) \/ Truthy(b))) ELSE Unspec
+    [] OTHER -> Unspec
+
 Apply(op, a, b) ==
   IF ~Scalar(a) \/ ~Scalar(b) THEN Unspec ELSE
+  IF a.t = "big" \/ b.t = "big" THEN BigApply(op, a, b) ELSE
   LET num == IsNum(a) /\ IsNum(b)
       ints == a.t = "int" /\ b.t = "int"
       strs == a.t = "str" /\ b.t = "str"
